@@ -315,3 +315,8 @@ CHECKS = [
           rule='shipped key-door environments: model-plan prefixes (with and without picking the key) followed by random actions; every door change must be a faced ACTUATE with the matching key; never beyond the wall while locked',
           required=['door_opened', 'locked_refused']),
 ]
+
+
+from vgv import worldedit  # noqa: E402
+
+CHECKS.append(worldedit.make_check('C10'))
